@@ -550,6 +550,72 @@ func runC16(c *Ctx) error {
 			}
 		}
 	}
+	// ---- a value that comes from the environment means what the same value written out means: the settings derived from
+	// the documented expandable fields (the split of a semantic version, the architecture without GoReleaser's float
+	// suffix, defaults for an empty platform / description) do not depend on where the value came from
+	{
+		famR := c.Rep.Family("reference-equals-literal", "exhaustive: {version, arch, platform, description, release, prerelease} x values whose meaning is derived after expansion (v-prefixed / short / prerelease+metadata versions, mips…softfloat, the empty string): the document with `${VAR}` and the mapping, against the document with the value written out; every field of the parsed Info compared; non-trivial = always")
+		famR.Exhaustive = true
+		type rc struct{ field, value string }
+		for _, x := range []rc{{"version", "v1.2.3-beta1+git.abcdef"}, {"version", "2"}, {"version", "1.4-rc.1"}, {"version", "v3.0.0"}, {"arch", "mipssoftfloat"}, {"arch", "mips64lehardfloat"},
+			{"platform", ""}, {"description", ""}, {"release", "2"}, {"prerelease", "rc1"}, {"platform", "freebsd"}} {
+			base := map[string]string{"name": "p", "arch": "amd64", "version": "1.0.0", "platform": "linux", "description": "d", "release": "1", "prerelease": ""}
+			mk := func(v string) string {
+				var b strings.Builder
+				for _, k := range []string{"name", "arch", "version", "platform", "description", "release", "prerelease"} {
+					val := base[k]
+					if k == x.field {
+						val = v
+					}
+					fmt.Fprintf(&b, "%s: %q\n", k, val)
+				}
+				return b.String()
+			}
+			ref, rerr := nfpm.ParseWithEnvMapping(strings.NewReader(mk("${C16_VALUE}")), func(k string) string {
+				if k == "C16_VALUE" {
+					return x.value
+				}
+				return ""
+			})
+			lit, lerr := nfpm.ParseWithEnvMapping(strings.NewReader(mk(x.value)), func(string) string { return "" })
+			famR.Eval(x.field+"="+x.value, true)
+			if (rerr == nil) != (lerr == nil) {
+				c.Rep.Find(report.Finding{Property: "C16", Family: "reference-equals-literal", Shape: "reference-and-literal-differ:" + x.field,
+					What:  fmt.Sprintf("%s: ${C16_VALUE} with C16_VALUE=%q: %v; written out: %v", x.field, x.value, rerr, lerr),
+					Input: map[string]any{"field": x.field, "value": x.value}})
+				continue
+			}
+			if rerr != nil {
+				continue
+			}
+			a := fmt.Sprintf("version=%q prerelease=%q metadata=%q release=%q arch=%q platform=%q description=%q", ref.Version, ref.Prerelease, ref.VersionMetadata, ref.Release, ref.Arch, ref.Platform, ref.Description)
+			b := fmt.Sprintf("version=%q prerelease=%q metadata=%q release=%q arch=%q platform=%q description=%q", lit.Version, lit.Prerelease, lit.VersionMetadata, lit.Release, lit.Arch, lit.Platform, lit.Description)
+			if a != b {
+				c.Rep.Find(report.Finding{Property: "C16", Family: "reference-equals-literal", Shape: "reference-and-literal-differ:" + x.field,
+					What:  fmt.Sprintf("%s: ${C16_VALUE} with C16_VALUE=%q parses to %s; the value written out parses to %s", x.field, x.value, a, b),
+					Input: map[string]any{"field": x.field, "value": x.value}})
+			}
+		}
+		// … and a value without a `$` is left as written whatever the mapping offers – a leading `~` included (HOME is just
+		// another variable of the mapping)
+		for _, kf := range []string{"~/keys/deb.asc", "~", "~user/key.asc", "/abs/~/key.asc"} {
+			doc := fmt.Sprintf("name: p\narch: amd64\nversion: 1.0.0\ndeb:\n  signature:\n    key_file: %q\nrpm:\n  signature:\n    key_file: %q\napk:\n  signature:\n    key_file: %q\n", kf, kf, kf)
+			cfg, err := nfpm.ParseWithEnvMapping(strings.NewReader(doc), func(k string) string {
+				return map[string]string{"HOME": "/home/ci", "USER": "ci", "USERPROFILE": "C:/Users/ci"}[k]
+			})
+			famR.Eval("key_file="+kf, true)
+			if err != nil {
+				continue
+			}
+			for blk, got := range map[string]string{"deb": cfg.Deb.Signature.KeyFile, "rpm": cfg.RPM.Signature.KeyFile, "apk": cfg.APK.Signature.KeyFile} {
+				if got != kf {
+					c.Rep.Find(report.Finding{Property: "C16", Family: "reference-equals-literal", Shape: "dollar-free-value-changed:key_file",
+						What:  fmt.Sprintf("%s.signature.key_file is written %q (no `$` in it) and parses to %q when the mapping defines HOME", blk, kf, got),
+						Input: map[string]any{"document": doc, "mapping": "HOME=/home/ci USER=ci"}})
+				}
+			}
+		}
+	}
 	return nil
 }
 
